@@ -563,6 +563,13 @@ def B(doc):
         d.add_xrecord("XR").tags.append(DXFTag(1, "x"))
         return d
 
+    def dict_with_default_soft():
+        ph = objs.add_placeholder(objs.rootdict.dxf.handle)
+        d = objs.add_dictionary_with_default(owner=objs.rootdict.dxf.handle, default=ph.dxf.handle, hard_owned=False)
+        d.set_default(ph)
+        d["LAYER0"] = doc.layers.get("0")
+        return d
+
     def xrecord():
         x = objs.add_xrecord(objs.rootdict.dxf.handle)
         x.tags.extend([DXFTag(1, "a"), DXFTag(40, 1.5), DXFTag(90, 2)])
@@ -676,7 +683,7 @@ def B(doc):
         "ATTRIB": raw("ATTRIB", tag="T", text="v", insert=(1, 1)),
         "SEQEND": raw("SEQEND"),
         # objects
-        "DICTIONARY": dictionary, "DICTIONARY/soft": dictionary_soft, "ACDBDICTIONARYWDFLT": dict_with_default,
+        "DICTIONARY": dictionary, "DICTIONARY/soft": dictionary_soft, "ACDBDICTIONARYWDFLT": dict_with_default, "ACDBDICTIONARYWDFLT/soft": dict_with_default_soft,
         "DICTIONARYVAR": lambda: objs.add_dictionary_var(objs.rootdict.dxf.handle, "val"),
         "ACDBPLACEHOLDER": lambda: objs.add_placeholder(objs.rootdict.dxf.handle),
         "XRECORD": xrecord,
@@ -763,6 +770,10 @@ def sharing(g: Graph, a: int, b: int):
                     pid, plabel = g.nodes[owner]["parent"]
                     via = norm_label(plabel) + ("[]" if via in ("#", "[]") else "." + via) if not via.startswith("[]") and via not in ("#", "[]") else norm_label(plabel) + "[]"
                     owner = g.index[pid]
+                oo = g.nodes[owner]["obj"]
+                # a hard owned DICTIONARY (every extension dictionary) owns its entries: they are not soft pointers
+                if via.startswith("_data") and tname(oo) in ("Dictionary", "DictionaryWithDefault") and _hard_owned(oo):
+                    via = "_data(hard-owned)" + via[len("_data"):]
                 entries[j] = (g.nodes[owner]["type"], via)
     for r in (a, b):
         if r in shm and r not in entries:
@@ -799,6 +810,13 @@ def frozen_region(g: Graph, a: int, b: int):
                 out.add(i)
                 todo += [k for _, k in g.nodes[i]["edges"] if k in shm]
     return out
+
+
+def _hard_owned(d) -> bool:
+    try:
+        return bool(d.dxf.get("hard_owned", 0))
+    except Exception:
+        return False
 
 
 def candidates_of(g: Graph, a: int, b: int):
@@ -925,7 +943,7 @@ def document_pairs():
 # ----------------------------------------------------------------------------- regenerate (T-heap)
 ID = "C16"
 LEAN_MODULES = ["EzdxfVerif.Props.C16"]
-DRIVER_DEPS = ["EzdxfVerif.Model.Heap", "Drivers.Proto"]
+DRIVER_DEPS = ["EzdxfVerif.Model.Heap", "EzdxfVerif.Model.HeapRecipe", "Drivers.Proto"]
 GEN_SOURCES = [
     "src/ezdxf/entities/copy.py", "src/ezdxf/entities/dxfentity.py", "src/ezdxf/entities/dxfns.py",
     "src/ezdxf/entities/dxfgfx.py", "src/ezdxf/entities/xdict.py", "src/ezdxf/entities/xdata.py",
@@ -997,6 +1015,21 @@ def extract(ctx=None):
             if kname == "copy":
                 graphs.append((f"{name}/copy", graph_to_lean(g, x, y)))
                 stats["nodes"] += len(g.reach(x) | g.reach(y))
+                # a recipe that branches on the state of the source (DIMENSION: virtual block content, MTEXT: columns,
+                # sub-entities: seqend) takes the other branch for a source that is itself a copy: second generation
+                try:
+                    row = program_row(e)[1]
+                except Opaque:
+                    row = None
+                if row is not None and (any(pp[0] == "cond" for pp in row["parts"].values()) or any(t is not None for _, t, _ in row["nsdrop"])):
+                    g2 = Graph()
+                    x2, y2 = g2.add(c), g2.add(c.copy())
+                    note_nav(g2)
+                    graphs.append((f"{name}/copy-of-copy", graph_to_lean(g2, x2, y2)))
+                    stats["nodes"] += len(g2.reach(x2) | g2.reach(y2))
+                    stats["scenarios"] += 1
+                    for c3 in candidates_of(g2, x2, y2):
+                        cands.append((f"copy-of-copy/{name}",) + c3)
             for c3 in candidates_of(g, x, y):
                 cands.append((f"{kname}/{name}",) + c3)
     doc = new_doc()
@@ -1037,7 +1070,7 @@ def regenerate(ctx):
             ctx.src(rel)
             srcs.append(rel)
     graphs, cands, nav, stats = extract(ctx)
-    text = "import EzdxfVerif.Model.Heap\n\nnamespace EzdxfVerif.Gen.HeapGraphs\nopen EzdxfVerif.Heap\n\n"
+    text = "import EzdxfVerif.Model.Heap\nimport EzdxfVerif.Model.HeapRecipe\n\nnamespace EzdxfVerif.Gen.HeapGraphs\nopen EzdxfVerif.Heap\n\n"
     text += f"/- object graphs of (source, source.copy()) for one fully populated instance per registered entity class:\n    {len(graphs)} graphs, {stats['nodes']} nodes -/\n"
     names = []
     for i, (name, gtext) in enumerate(graphs):
@@ -1061,6 +1094,24 @@ def regenerate(ctx):
     text += f"def recipes : List (String × String × String) := {lean_list((lean_rule(r) for r in rows), 3)}\n\n"
     text += "/-- classes whose copy()/copy_data is not in the modelled subset (covered by graphs and oracle only) -/\n"
     text += f"def opaqueRecipes : List (String × String) := {lean_list((lean_rule(r) for r in opaque), 2)}\n\n"
+    text += programs_to_lean()
+    gtab = scan_globals(globals_battery, warm=True)
+    text += ("/-- T-heap for module level state: every module / class level mutable object, mutable default argument and lru cache of the\n"
+             "    loaded ezdxf modules with the result of the write-barrier probe: (qualified name, kind, stable | handed-out | changed) -/\n")
+    text += f"def globalsTable : List (String × String × String) := {lean_list((lean_rule(r) for r in gtab), 2)}\n\n"
+    from translate.floweffects_c16 import scan_flows
+    fe, nfun, nstmt, fmissing = scan_flows()
+    text += ("/-- T-ast for the flows: every store / call with unknown effect / hand-out in the flow functions that does not concern a\n"
+             "    product of the function: (function, kind, text) -/\n")
+    text += f"def flowEffects : List (String × String × String) := {lean_list((lean_rule(r) for r in fe), 1)}\n\n"
+    text += f"def flowMissing : List (String × String × String) := {lean_list((lean_rule(r) for r in fmissing), 1)}\n\n"
+    text += f"def flowFunctionCount : Nat := {nfun}\n\ndef flowStatementCount : Nat := {nstmt}\n\n"
+    ctx.note(f"T-ast flows: {nfun} flow functions, {nstmt} statements, {len(fe)} effects outside produce / write-through-product")
+    bad = [r for r in gtab if r[2] != "stable"]
+    ctx.note(f"T-heap globals: {len(gtab)} module/class level mutable objects, default arguments and caches; not stable: {bad[:8]}")
+    P = programs()
+    ctx.note(f"T-ast programs: {len(P['rows'])} class recipes, {len(P['methods'])} copy methods scanned, {len(P['untranslated'])} untranslated"
+             + "".join(f"; UNTRANSLATED {a}: {b[:80]}" for a, b in P["untranslated"][:6]))
     text += "end EzdxfVerif.Gen.HeapGraphs\n"
     ctx.note(f"T-ast: {len(rows)} part policies derived from copy_data source text, {len(opaque)} classes outside the subset")
     ctx.write_gen("HeapGraphs", text, srcs)
@@ -1133,6 +1184,10 @@ def generic_mutators(e, rng):
         ("xdata.inplace_clear", lambda x: x.get_xdata("VERIF").clear()),
         ("xdata.discard", lambda x: x.discard_xdata("VERIF")),
         ("xdata.set_xdata_list", lambda x: x.set_xdata_list("VERIF", "LST", [(1000, "item"), (1070, 1)])),
+        ("xdata.replace_xdata_list", lambda x: (x.set_xdata_list("VERIF", "LST", [(1000, "item")]), x.replace_xdata_list("VERIF", "LST", [(1000, "other"), (1070, 2)]))),
+        ("xdata.discard_xdata_list", lambda x: (x.set_xdata_list("VERIF", "LST", [(1000, "item")]), x.discard_xdata_list("VERIF", "LST"))),
+        ("xdata.user_list", lambda x: _xdata_user_list(x)),
+        ("xdata.user_dict", lambda x: _xdata_user_dict(x)),
         ("xdata.data_dict", lambda x: x.xdata.data.pop("VERIF")),
         ("appdata.set", lambda x: x.set_app_data("VERIF_APP", [(1, "changed")])),
         ("appdata.set_new", lambda x: x.set_app_data("VERIF_APP2", [(1, "new")])),
@@ -1175,6 +1230,19 @@ def generic_mutators(e, rng):
             ("transform.twice", lambda x: (x.transform(Matrix44.translate(1, 0, 0)), x.transform(Matrix44.translate(0, 1, 0)))),
         ]
     return out
+
+
+def _xdata_user_list(x):
+    from ezdxf.entities.xdata import XDataUserList
+    with XDataUserList.entity(x, name="VERIFLIST", appid="VERIF") as lst:
+        lst.append("one")
+        lst.append(2)
+
+
+def _xdata_user_dict(x):
+    from ezdxf.entities.xdata import XDataUserDict
+    with XDataUserDict.entity(x, name="VERIFDICT", appid="VERIF") as d:
+        d["k"] = "v"
 
 
 def _xd(e):
@@ -1239,6 +1307,10 @@ def specific_mutators(e, rng):
         add("h.pattern.lines_append", lambda x: x.pattern.add_line(10, (0, 0), (1, 1), [0.1]))
         add("h.pattern.scale", lambda x: x.pattern.scale(2, 15))
         add("h.set_pattern_fill", lambda x: x.set_pattern_fill("ANSI33", scale=2))
+        add("h.set_pattern_fill_default", lambda x: x.set_pattern_fill("ANSI31"))          # scale 1, angle 0: the predefined table as it is
+        add("h.set_pattern_fill_iso_default", lambda x: x.set_pattern_fill("ISO02W100"))
+        add("h.set_pattern_definition_default", lambda x: x.set_pattern_definition([[45.0, (0.0, 0.0), (0.0, 1.0), [0.5, -0.25]]]))
+        add("h.pattern.line_dash_setitem", lambda x: x.pattern.lines[0].dash_length_items.__setitem__(0, 0.75) if x.pattern.lines[0].dash_length_items else x.pattern.lines[0].dash_length_items.append(0.75))
         add("h.set_solid_fill", lambda x: x.set_solid_fill(color=5))
         add("h.set_gradient", lambda x: x.set_gradient((9, 9, 9), (1, 1, 1)))
         add("h.gradient.color1", lambda x: setattr(x.gradient, "color1", (5, 5, 5)))
@@ -1269,6 +1341,9 @@ def specific_mutators(e, rng):
         add("me.edges_append", lambda x: x.edges.append((2, 3)))
         add("me.creases_append", lambda x: x.creases.append(1.0))
         add("me.creases_setitem", lambda x: x.creases.__setitem__(0, 9.0))
+        add("me.face_inplace_reverse", lambda x: [f.reverse() for f in x.faces])
+        add("me.face_inplace_setitem", lambda x: x.faces[0].__setitem__(0, 3))
+        add("me.edge_inplace", lambda x: x.edges.values.__setitem__(0, 3) if hasattr(x.edges, "values") else _raise())
     if t == "MLine":
         add("ml.extend", lambda x: x.extend([(9, 9)]))
         add("ml.clear", lambda x: x.clear())
@@ -1671,14 +1746,22 @@ RULE = (
     "the very object of the source s<addr> / value) against the rendering of the real copy relative to the identities "
     "(id()) of the source objects; non-trivial = the class has a payload part with an explicit copy_data policy or the instance "
     "carries XDATA / app data / an extension dictionary; classes outside the "
-    "modelled subset (copy() overridden, property setters, cyclic values) are listed in the notes. distinct by hash of the request. "
+    "modelled subset (none on the current tree; a reference back to an object on the path - BLOCK_RECORD and its layout - is an identity reference) are listed in the notes. distinct by hash of the request.  Since session 3 the recipe sent "
+    "to the driver is the PROGRAM translated from every copy method of src/ezdxf/entities (copy_data, copy, __copy__, deep_copy, helper "
+    "classes; conditional parts; generator inputs for DIMENSION), evaluated by `copyTop`; a quarter of the sources are themselves "
+    "unbound copies (second generation). "
+    "correspondence X3 (hypotheses of all_recipes_separate on real instances): for every X2 source tree and generator input the Lean "
+    "driver evaluates `wt` against the inferred type table with the Frozen addresses of the instance (expected: ok), and `tableSafe` "
+    "for the recipes and types of the classes of the request (expected: true). "
     "oracle: mutate-then-compare sweep on the real code: every copyable class x instance variants x copy route (copy, "
     "copy_to_layout, duplicate_entity) x every mutator (each DXF attribute set/discard, XDATA, app data, reactors, extension "
     "dictionary entries, payload API of each class, transform, raw mutation of every mutable object of the graph) x both "
     "directions; virtual entities of INSERT/POLYLINE/DIMENSION/LEADER/MLINE/MULTILEADER/POINT mutated the same way; content "
     "equality source/copy minus the documented resets; handles; producing copies / virtual entities / primitives leaves the "
     "whole document fingerprint unchanged; two documents under interleaved operation histories compared with solo runs (and "
-    "per step); successive new(); module and class level state of the package before/after."
+    "per step); successive new(); module and class level state of the package before/after; O9: after every public-API mutator "
+    "applied to a fresh copy the payload parts still have the inferred types (`wt`, Python mirror `shape_holds`) that all_recipes_separate assumes; "
+    "O10: after every public-API mutator no mutable object of the entity is, by identity, part of a module / class level container."
 )
 TRUSTED_BASE = [
     "the object graph extractor (T-heap, harness/props/c16.py): it sees __dict__, __slots__ and builtin containers; memory shared "
@@ -1686,6 +1769,9 @@ TRUSTED_BASE = [
     "only by the raw mutation sweep of the oracle",
     "types classified immutable by contract: str/int/float/bytes/tuple/frozenset of immutables, Vec2/Vec3, Enum members, DXFTag/DXFVertex/DXFBinaryTag",
     "one fully populated instance per class: containers created lazily for other data are searched by the oracle sweep, not proved absent",
+    "the recipe translator harness/translate/copyrecipes_c16.py (AST patterns -> Pol programs; dynamic dispatch of x.copy() resolved by the types of "
+    "populated instances); it is tied to the code by correspondence X2 on every class (the model copy computed from the translated program must "
+    "render exactly like the real copy, object identities included) and fails loudly (recipes_complete) on any construct outside its subset",
     "reachability inside whole documents is computed by the extractor; Lean checks only that every reported sharing candidate is on the Frozen list",
 ]
 ASSUMPTIONS = [
@@ -1693,7 +1779,21 @@ ASSUMPTIONS = [
     "objects on the Frozen list (IMAGE_DEF / UNDERLAY_DEFINITION resources, soft-pointer dictionary entries, SPATIAL_FILTER matrices, the source entity behind disassemble.Primitive.entity) are shared on purpose",
 ]
 OPEN = [
-    "which copy_data recipe a class uses is tied to the code by T-ast + correspondence X2 and by the extracted graphs, not by a proof; classes outside the modelled subset (Dimension family, ACIS entities, BLOCK_RECORD) are covered by graphs and oracle only",
+    "all_recipes_separate / flows_frame quantify over every heap and every WELL TYPED source tree; that the trees of real entities are well typed "
+    "(parts passed by reference hold immutable values or Frozen resources: `sat` is a tuple of str, `_boundary_path` a list of Vec2 ...) is an "
+    "invariant of the classes that is inferred from populated instances (T-heap) and checked on ~2300 real instances per quick run by the Lean "
+    "evaluated predicate `wt` (X3) and after every public-API mutator of the sweep by its Python mirror (O9, ~12k states), not proved from the source of the setters",
+    "the value model of `copy.deepcopy` is 'a new graph'; the copy protocol overrides of the package (__deepcopy__, __reduce__, __getstate__ ...) are "
+    "enumerated from the source on every run and each must be of a listed harmless form (recipes_complete), but deepcopy of foreign objects "
+    "(numpy arrays, array.array) is trusted",
+    "the flows virtual_entities / explode / copy_to_layout / add_attrib are proved separate at model level for every flow (flows_frame) and tied "
+    "to the code by a syntactic effect scan of the flow functions (flow_effects_allowed: a classification of statements by whether they concern a "
+    "product, not a translation; the render modules that build new primitives are not scanned), the extracted scenario graphs (candidates_frozen) "
+    "and the oracle",
+    "interleaved_frame / interleaved_solo are about the heap model (writes through owning paths); that the operations of the document API are such "
+    "writes through the document they are called on is tied by X1 (raw writes) and by oracle O5 (100 interleaved histories against solo runs per quick run)",
+    "globals_guarded is a write-barrier probe by content over a fixed battery of operations (copies by all routes, virtual entities, new / readfile / "
+    "recover, save), not a proof that no code path mutates a module level object; lru caches are listed but their stored values are not enumerable",
     "frame_needs_separation is a regression fact about the pre-fix configuration (Body.copy_data aliasing, fixed by 3a74eae26), not about the current code",
 ]
 
@@ -1883,6 +1983,19 @@ def sweep_one(ctx, name):
                 st = run_mut(fn, c)
                 ctx.count(stream, (vname, kname, "copy->source", mname), st == "ok")
                 ctx.hist(stream, f"{kname}/copy->source/{st}")
+                if st == "ok" and not mname.startswith("raw:") and first_gen and not bound:  # a fresh copy per mutator
+                    # O9: the public mutators keep the class invariants that all_recipes_separate assumes (`wt`)
+                    tv_ = typing_violation(c)
+                    ctx.count("O9 mutators keep the parts well typed", (vname, kname, mname), True)
+                    if tv_ is not None:
+                        ctx.fail(f"typing/{tv_}/{mname}", f"{vname}: after {mname} the part {tv_} no longer has the type the recipe check assumes (a part passed by reference holds a mutable value)",
+                                 {"op": "sweep", "builder": name, "kind": kname, "dir": "copy->source", "mutator": mname})
+                    # O10: no public mutator makes the entity hold a mutable object of a module / class level container
+                    ho = handed_out_global(c)
+                    ctx.count("O10 no module level object handed out", (vname, kname, mname), True)
+                    if ho is not None:
+                        ctx.fail(f"global-handed-out/{ho.split(' via ')[0]}/{cls}/{mname}", f"{vname}: after {mname} the entity holds a mutable object of the module level container {ho}: editing it in place changes every other entity and document that uses the table",
+                                 {"op": "sweep", "builder": name, "kind": kname, "dir": "copy->source", "mutator": mname})
                 after = fingerprint(src)
                 if after != before:
                     d = fp_diff(before, after)
@@ -2936,8 +3049,9 @@ class TreeView:
     def __init__(self):
         self.addr, self.keep = {}, []
         self.atoms, self.navs = {"None": 0}, {}
-        self.classes, self.blanks = {}, {}  # (cls, variant) -> id ; id -> (policies, nsdrop, blank text)
+        self.classes, self.blanks = {}, {}  # class key -> id ; id -> (recipe text, -, types text)
         self.deep_imm = {}
+        self.ctx, self.frozen_addrs = {}, set()
 
     def atom(self, o):
         key = "None" if o is None else repr(fingerprint(o))
@@ -2955,19 +3069,37 @@ class TreeView:
         return f"n{self.navs[id(o)]}"
 
     def cls_id(self, e):
-        cls, var, pols, nsdrop, opaque = variant_of(e)
-        if opaque:
-            raise Opaque(f"{cls.__name__}: {opaque}")
-        key = (cls, var)
+        key, row = program_row(e)
         if key not in self.classes:
+            names = part_names(e)
+            if names != row["names"]:
+                raise Opaque(f"{type(e).__name__}: instance attributes created after __init__")
             cid = self.classes[key] = len(self.classes)
-            blank = cls()
             self.blanks[cid] = None  # reserve (recursion)
-            btxt = " ".join(self.tree(getattr(blank, n), number=False, path=()) for n in part_names(e)) if all(hasattr(blank, n) for n in part_names(e)) else None
-            if btxt is None:
-                raise Opaque(f"{cls.__name__}: instance attributes created after __init__")
-            self.blanks[cid] = ("".join(POLICY_LETTER[p] for p in pols), nsdrop, btxt)
+            P = programs()
+            self.blanks[cid] = (" ".join(self.ppol_text(pp) for pp in row_ppols(row)), None,
+                                " ".join(ty_text(P["types"][key][a]) for a in names))
         return self.classes[key]
+
+    def pol_text(self, p):
+        if p[0] in ("deep", "alias", "ents"):
+            return p[0][0]
+        if p[0] == "const":
+            return "C( " + self.tree(const_value(p[1]), number=False, path=()) + " )"
+        if p[0] == "gen":
+            return f"g{p[1]}"
+        if p[0] == "each":
+            return "E( " + self.pol_text(p[1]) + " )"
+        if p[0] == "fields":
+            return "F( " + " ".join(self.pol_text(q) for _, q in p[1]) + " )"
+        raise ValueError(p)
+
+    def ppol_text(self, pp):
+        if pp[0] == "one":
+            return "1 " + self.pol_text(pp[1])
+        t = pp[1]
+        tt = "?n" if t[0] == "notNone" else "?k" + ".".join(map(str, t[1]))
+        return f"{tt} {self.pol_text(pp[2])} {self.pol_text(pp[3])}"
 
     def kids(self, o):
         for label, c in children(o)[1]:
@@ -2978,7 +3110,23 @@ class TreeView:
             return self.atom(c)
         if (label in NAV_ATTRS and _is_entity(o)) or tname(c) in NAV_TARGET_TYPES:
             return self.nav(c)
-        return self.render(c, path) if render else self.tree(c, number, path)
+        if render:
+            return self.render(c, path)
+        # Frozen rules are keyed by (type, type of the owning object, attribute[+ [] per container step])
+        if isinstance(o, (list, tuple, dict, set, frozenset, collections.deque)):
+            owner, via = self.ctx.get(id(o), ("?", "?"))
+            via = via + "[]"
+        else:
+            owner, via = tname(o), label
+        self.ctx[id(c)] = (owner, via)
+        start = len(self.addr)
+        known = id(c) in self.addr
+        out = self.tree(c, number, path)
+        if number and _frozen_by_rule(c, owner, via):
+            self.frozen_addrs.update(range(start + 1, len(self.addr) + 1))
+            if known:
+                self.frozen_addrs.add(self.addr[id(c)])
+        return out
 
     def _address(self, o, number):
         if not number:
@@ -3000,6 +3148,8 @@ class TreeView:
         if is_atom(o):
             return self.atom(o)
         if id(o) in path:
+            if number and id(o) in self.addr:
+                return self.nav(o)  # a reference back to an object on the path (BLOCK_RECORD <-> its layout): identity only
             raise Opaque("cyclic value")
         path = path + (id(o),)
         a = self._address(o, number)
@@ -3013,7 +3163,7 @@ class TreeView:
 
     def _entity(self, e, a, number, path, render):
         cid = self.cls_id(e)
-        nsdrop = self.blanks[cid][1] if self.blanks[cid] else []
+        nsdrop = nsdrop_for(e)
         d = vars(e.dxf)
         names = ["handle", "owner"] + sorted(n for n in d if n not in ("handle", "owner", "_entity") and n not in nsdrop)
         sub = (lambda c, l, owner: self.slot(owner, l, c, number, path, render))
@@ -3058,10 +3208,31 @@ class TreeView:
             return f"{kind}[ {oc} ]"
         return f"{kind}[ " + " ".join(self.slot(o, l, c, False, path, True) for l, c in self.kids(o)) + " ]"
 
-    def request(self, src_text):
-        cls = ",".join(f"{cid}={self.blanks[cid][0]}" for cid in sorted(self.blanks))
-        bl = ";".join(f"{cid}={self.blanks[cid][2]}" for cid in sorted(self.blanks))
-        return f"copy|{cls}|{bl}|{src_text}"
+    def request(self, src_text, env=()):
+        cls = ";".join(f"{cid}={self.blanks[cid][0]}" for cid in sorted(self.blanks))
+        return f"copyp|{cls}|{';'.join(env)}|{src_text}"
+
+    def typed_request(self, tree_text):
+        tys = ";".join(f"{cid}={self.blanks[cid][2]}" for cid in sorted(self.blanks))
+        return f"typed|{tys}|{' '.join(map(str, sorted(self.frozen_addrs)))}|{tree_text}"
+
+    def safe_request(self):
+        cls = ";".join(f"{cid}={self.blanks[cid][0]}" for cid in sorted(self.blanks))
+        tys = ";".join(f"{cid}={self.blanks[cid][2]}" for cid in sorted(self.blanks))
+        return f"safe|{cls}|{tys}"
+
+    def env_trees(self, e):
+        """inputs of the generators of the recipe of `e`: DIMENSION - the entities of the geometry block, in the shape of
+        the EntitySpace the generator result is stored in"""
+        key, row = program_row(e)
+        gens = [p for pp in row["parts"].values() for p in pols_of(pp) if p[0] == "gen"]
+        if not gens:
+            return []
+        content = list(e._block_content())
+        a1, a2 = len(self.addr) + 1, len(self.addr) + 2
+        self.addr[("wrapper", id(e), 1)] = a1
+        self.addr[("wrapper", id(e), 2)] = a2
+        return [f"c{a1}[ k{a2}[ " + " ".join(self.tree(x) for x in content) + " ] ]"]
 
 
 def _copy_corr_worker(args):
@@ -3069,7 +3240,7 @@ def _copy_corr_worker(args):
     import random
     doc = new_doc()
     b = B(doc)
-    cases, skipped = [], {}
+    cases, typed, skipped = [], [], {}
     reps = 24 if quick else 200
     for k, name in enumerate(b):
         if k % parts != part:
@@ -3083,21 +3254,29 @@ def _copy_corr_worker(args):
                 spec = specific_mutators(e, rng) or [("", lambda x: None)]
                 for _ in range(rng.randint(1, 3)):
                     run_mut(rng.choice(spec)[1], e)
-            tv = TreeView()
-            tv.nav(doc)
             try:
+                if rng.random() < 0.25:  # second generation: the source is itself an unbound copy
+                    e = e.copy()
+                tv = TreeView()
+                tv.nav(doc)
                 src = tv.tree(e)
+                env = tv.env_trees(e)
                 c = e.copy()
                 out = tv.render(c)
-                req = tv.request(src)
+                req = tv.request(src, env)
             except Opaque as ex:
                 skipped[name] = str(ex)
                 break
             except ezdxf.DXFError:
                 break
-            explicit = any(p != "init" for p in variant_of(e)[2])
+            row = program_row(e)[1]
+            explicit = bool(row["parts"])
             cases.append((req, out, explicit or e.xdata is not None or e.appdata is not None or e.extension_dict is not None))
-    return cases, skipped
+            typed.append((tv.typed_request(src), "ok", explicit))
+            for t in env:
+                typed.append((tv.typed_request(t), "ok", True))
+            typed.append((tv.safe_request(), "true", explicit))
+    return cases, skipped, typed
 
 
 def correspond_copy(ctx):
@@ -3111,6 +3290,7 @@ def correspond_copy(ctx):
         with mp.get_context("fork").Pool(procs) as pool:
             res = pool.map(_copy_corr_worker, jobs, chunksize=1)
     cases = [c for r in res for c in r[0]]
+    typed = [c for r in res for c in r[2]]
     skipped = {}
     for r in res:
         skipped.update(r[1])
@@ -3119,3 +3299,702 @@ def correspond_copy(ctx):
         ctx.hist(stream, "class not modelled (oracle and graphs only)")
         ctx.note(f"X2 skips {n}: {why}")
     ctx.correspond(stream, "C16", cases, build=DRIVER_DEPS)
+    # X3: the hypotheses of `all_recipes_separate` on the real instances: every source tree (and generator input) of X2 is
+    # well typed (`wt`, evaluated by the Lean driver) against the inferred type table with the Frozen objects of the
+    # instance, and the recipes of the classes in the request are safe against those types
+    ctx.correspond("X3 source trees are well typed (hypothesis of all_recipes_separate)", "C16", typed, build=DRIVER_DEPS)
+
+
+# ----------------------------------------------------------------------------- recipes as programs (session 3, T-ast + T-heap)
+# Every copy method of src/ezdxf/entities is translated into the recipe language of Model/HeapRecipe.lean by
+# harness/translate/copyrecipes_c16.py; the types of the parts are inferred from populated instances; Lean checks the one
+# against the other (`recipes_safe`) and that nothing was left untranslated (`recipes_complete`).
+_PROGRAMS = None
+
+
+def _opaque_value_type(T) -> bool:
+    """instances are leaves with a value (Matrix44, numpy / array objects): x.copy() is a new object"""
+    if T.__name__ in ("Matrix44",) or issubclass(T, (array.array, bytearray)):
+        return True
+    return _numpy is not None and issubclass(T, _numpy.ndarray)
+
+
+def populated_instances():
+    """[(builder name, entity)]: the decorated instance of every builder, two payload variants and an unbound copy of each
+    (a copy is the source of the second generation copies: DIMENSION with virtual block content)"""
+    import random
+    out = []
+    doc = new_doc()
+    b = B(doc)
+    for name, build in b.items():
+        for v in range(3):
+            e = build()
+            if v == 0:
+                decorate(e, doc)
+            else:
+                r = random.Random(f"C16/programs/{name}/{v}")
+                spec = specific_mutators(e, r)
+                for _ in range(2):
+                    if spec:
+                        run_mut(r.choice(spec)[1], e)
+            out.append((name, e))
+            try:
+                out.append((name, e.copy()))
+            except ezdxf.DXFError:
+                pass
+    return out
+
+
+def _frozen_by_rule(v, owner_name, via) -> bool:
+    return any(rule_covers(r, (tname(v), owner_name, via)) for r in FROZEN_RULES)
+
+
+def _deep_imm(o, memo=None) -> bool:
+    memo = {} if memo is None else memo
+    if is_atom(o):
+        return True
+    if id(o) in memo:
+        return memo[id(o)]
+    memo[id(o)] = False
+    kind, ch = children(o)
+    r = kind == KIND_IMM and all(_deep_imm(c, memo) for _, c in ch)
+    memo[id(o)] = r
+    return r
+
+
+BOT = ("bot",)     # only atoms seen
+FREE = ("free",)   # no policy looks at the value
+
+
+def ty_join(a, b):
+    if a == FREE:
+        return b
+    if b == FREE:
+        return a
+    if a == BOT:
+        return b
+    if b == BOT:
+        return a
+    if a == b:
+        return a
+    if a == ("any",) or b == ("any",):
+        return ("any",)
+    if a == ("ok",):
+        a, b = b, a
+    if b == ("ok",):  # an `ok` value seen where a collection / object was seen: its children are `ok`
+        if a[0] == "coll":
+            return ("coll", ty_join(a[1], ("ok",)))
+        if a[0] == "obj":
+            return ("obj", [ty_join(x, ("ok",)) for x in a[1]])
+    if a[0] == "coll" and b[0] == "coll":
+        return ("coll", ty_join(a[1], b[1]))
+    if a[0] == "obj" and b[0] == "obj":
+        n = max(len(a[1]), len(b[1]))
+        xs, ys = a[1] + [BOT] * (n - len(a[1])), b[1] + [BOT] * (n - len(b[1]))
+        return ("obj", [ty_join(x, y) for x, y in zip(xs, ys)])
+    return ("any",)
+
+
+def ty_infer(v, pol, owner_name, via):
+    """type of the value `v` as far as policy `pol` looks at it"""
+    if pol is None or pol[0] in ("deep", "ents", "const", "gen"):
+        return FREE
+    if is_atom(v):
+        return BOT
+    if _deep_imm(v) or (pol[0] == "alias" and _frozen_by_rule(v, owner_name, via)):
+        return ("ok",)
+    if pol[0] == "alias":
+        return ("any",)
+    kind, ch = children(v)
+    if pol[0] == "each":
+        t = BOT if pol[1][0] == "alias" else FREE
+        for label, c in ch:
+            if isinstance(v, dict) and label.startswith("key"):
+                continue
+            t = ty_join(t, ty_infer(c, pol[1], owner_name if isinstance(v, (list, tuple, dict, set)) and via.endswith("[]") else owner_name, via + "[]"))
+        return ("coll", t)
+    if pol[0] == "fields":
+        if is_dxf_entity(v):
+            return ("any",)
+        sub = dict(pol[1])
+        return ("obj", [ty_infer(c, sub.get(label), tname(v), label) for label, c in ch])
+    return ("any",)
+
+
+def ty_final(t):
+    if t == BOT:
+        return ("ok",)
+    if t == FREE:
+        return ("any",)
+    if t[0] == "coll":
+        return ("coll", ty_final(t[1]))
+    if t[0] == "obj":
+        return ("obj", [ty_final(x) for x in t[1]])
+    return t
+
+
+def pols_of(pp):
+    return [pp[1]] if pp[0] == "one" else [pp[2], pp[3]]
+
+
+def class_key(cls, assume):
+    return cls.__name__ + "".join(f"?{a}={int(bool(v))}" for a, v in sorted(assume.items()))
+
+
+def programs():
+    """-> dict(rows, types, methods, untranslated, ok_parts, generators, samples)
+    rows: class key -> dict(cls, assume, parts {attr: PPol}, nsdrop, names [part names of a default instance])"""
+    global _PROGRAMS
+    if _PROGRAMS is not None:
+        return _PROGRAMS
+    import importlib
+    import os
+    from ezdxf.entities import factory, DXFEntity
+    from runner import REPO
+    from translate.copyrecipes_c16 import Translator, Untranslatable, NeedVariant, scan_sources, fn_ast, body_of, PROTOCOL_NAMES
+
+    insts = populated_instances()
+    by_type = {}
+    g = Graph()
+    for _, e in insts:
+        g.add(e)
+    for n in g.nodes:
+        by_type.setdefault(type(n["obj"]), []).append(n["obj"])
+
+    def samples(cls, attr):
+        out = []
+        for T, objs in by_type.items():
+            if issubclass(T, cls):
+                for o in objs:
+                    try:
+                        out.append(inspect_getattr(o, attr))
+                    except AttributeError:
+                        pass
+        return out
+
+    def inspect_getattr(o, attr):
+        d = getattr(o, "__dict__", None)
+        if isinstance(d, dict) and attr in d:
+            return d[attr]
+        return object.__getattribute__(o, attr)
+
+    tr = Translator(samples, lambda T: issubclass(T, DXFEntity), _opaque_value_type)
+    rows, untranslated, raises = {}, [], set()
+    classes = set(factory.ENTITY_CLASSES.values()) | {T for T in by_type if issubclass(T, DXFEntity)}
+    for cls in sorted(classes, key=lambda c: c.__name__):
+        todo = [{}]
+        while todo:
+            assume = todo.pop()
+            try:
+                r = tr.recipe(cls, assume)
+            except NeedVariant as nv:
+                todo += [dict(assume, **{nv.attr: True}), dict(assume, **{nv.attr: False})]
+                continue
+            except Untranslatable as ex:
+                if str(ex) == "raises":
+                    raises.add(cls.__name__)
+                else:
+                    untranslated.append((f"{cls.__name__}.copy_data", str(ex)))
+                continue
+            try:
+                blank = cls()
+                names = part_names(blank)
+            except Exception as ex:
+                untranslated.append((cls.__name__, f"no default instance: {ex}"))
+                continue
+            unknown = [a for a in r["parts"] if a not in names]
+            if unknown:
+                untranslated.append((f"{cls.__name__}.copy_data", f"assigns attributes that __init__ does not create: {unknown}"))
+                continue
+            rows[class_key(cls, assume)] = {"cls": cls, "assume": assume, "parts": r["parts"], "nsdrop": r["nsdrop"], "names": names}
+
+    # ---- the scanner: every copy method found in the source must be accounted for
+    methods = []
+    for rel, cname, mname, text in scan_sources(REPO):
+        key = f"{rel[len('src/ezdxf/'):]}:{cname}.{mname}"
+        if (cname, mname) in tr.used_methods and cname not in ("Vec2", "Vec3"):
+            methods.append((key, "recipe"))
+            continue
+        disp = None
+        if text.startswith("alias of "):
+            disp = "alias"
+        elif cname in ("Vec2", "Vec3"):
+            disp = "immutable-value"  # value classes without mutator (trusted base): whatever they return is a value
+        elif rel.endswith(".pyx"):
+            import re
+            if re.fullmatch(rf"return {cname}, \(?.*\)?", text.strip()) and "self" in text:
+                disp = "reconstruct"  # __reduce__: a new object built from the values of self
+            elif mname == "__deepcopy__" and text.strip() == "return self":
+                disp = "immutable-self"
+        else:
+            fd = ast.parse(text).body[0]
+            body = body_of(fd)
+            btxt = [ast.unparse(s) for s in body]
+            if len(body) == 1 and isinstance(body[0], ast.Raise) and "CopyNotSupported" in btxt[0]:
+                disp = "raises"
+            elif not body:
+                disp = "recipe"  # DXFEntity.copy_data: pass
+            elif btxt == ["return copy_strategy.copy(self)"]:
+                disp = "strategy"
+            elif btxt == ["return self"]:
+                disp = "immutable-self"
+            elif cname == "CopyStrategy" and mname == "copy":
+                disp = "strategy" if btxt == STRATEGY_SKELETON else None
+                if disp is None:
+                    untranslated.append((key, "CopyStrategy.copy differs from the modelled header: " + next(
+                        (b for b, s in zip(btxt + ["<end>"], STRATEGY_SKELETON + ["<end>"]) if b != s), "?")[:60]))
+                    methods.append((key, "untranslated"))
+                    continue
+            elif cname == "DXFNamespace" and mname in ("copy", "__deepcopy__", "__getstate__", "__setstate__"):
+                disp = "namespace" if btxt == NAMESPACE_SKELETON.get(mname) else None
+            elif cname == "DXFEntity" and mname == "shallow_copy":
+                # type cast constructor (POLYLINE -> Polyface / Polymesh at load time): the argument is replaced by the
+                # result and dropped by the caller; "not a real copy" - everything is handed over by reference
+                disp = "type-cast" if btxt == CAST_SKELETON else None
+            if disp is None:
+                # a helper class: translate the method on its own (it may be off every copy path of the package)
+                try:
+                    mod = importlib.import_module(rel[len("src/"):-3].replace(os.sep, "."))
+                    T = getattr(mod, cname)
+                    vals = [o for K, objs in by_type.items() if issubclass(K, T) for o in objs]
+                    if issubclass(T, DXFEntity):
+                        if mname != "copy_data":
+                            raise Untranslatable("entity class: method outside the copy strategy")
+                        r = tr.recipe(T, {})  # an entity class that the factory does not register
+                        rows[class_key(T, {})] = {"cls": T, "assume": {}, "parts": r["parts"], "nsdrop": r["nsdrop"], "names": part_names(T())}
+                        disp = "recipe"
+                    else:
+                        tr.helper(T, mname, vals)
+                        # a hand written copy protocol method of a non-value class changes what `copy.deepcopy` (policy
+                        # `deep`) does for every part that holds such an object: not a harmless form
+                        disp = "helper" if mname not in PROTOCOL_NAMES else "deepcopy-override"
+                        if disp != "helper":
+                            untranslated.append((key, "copy protocol override of a helper class: the policy `deep` of the parts that hold it is no longer 'a new graph'"))
+                except Untranslatable as ex:
+                    untranslated.append((key, str(ex)))
+                    disp = "untranslated"
+                except Exception as ex:
+                    untranslated.append((key, f"{type(ex).__name__}: {ex}"))
+                    disp = "untranslated"
+        methods.append((key, disp))
+
+    # ---- types of the parts, inferred from the populated instances
+    types = {}
+    for key, row in rows.items():
+        cls = row["cls"]
+        tys = {a: FREE for a in row["names"]}
+        for T, objs in by_type.items():
+            if not (isinstance(T, type) and issubclass(T, cls)):
+                continue
+            for o in objs:
+                if class_key(cls, {a: o.dxf.get(a) for a in row["assume"]}) != key:
+                    continue
+                for a in row["names"]:
+                    pp = row["parts"].get(a)
+                    if pp is None or a not in vars(o):
+                        continue
+                    for p in pols_of(pp):
+                        tys[a] = ty_join(tys[a], ty_infer(vars(o)[a], p, tname(o), a))
+        types[key] = {a: ty_final(t) if row["parts"].get(a) is not None else ("any",) for a, t in tys.items()}
+
+    # ---- every position that a policy passes by reference: (class of the owner, attribute)
+    ok_parts = set()
+
+    def walk(p, owner, attr):
+        if p[0] == "alias":
+            ok_parts.add((owner, attr))
+        elif p[0] == "each":
+            walk(p[1], owner, attr)
+        elif p[0] == "fields":
+            hn = p[2] if len(p) > 2 else None
+            for a, q in p[1]:
+                walk(q, helper_owner.get(id(p[1]), owner + "." + attr), a)
+
+    helper_owner = {}
+    for (T, m), pol in tr.helpers.items():
+        if pol and pol[0] == "fields":
+            helper_owner[id(pol[1])] = T.__name__
+    for key, row in rows.items():
+        for a, pp in row["parts"].items():
+            for p in pols_of(pp):
+                walk(p, row["cls"].__name__, a)
+    for (T, m), pol in tr.helpers.items():
+        if pol:
+            walk(pol, T.__name__, "<self>")
+    _PROGRAMS = {"rows": rows, "types": types, "methods": methods, "untranslated": untranslated, "ok_parts": sorted(ok_parts),
+                 "generators": tr.generators, "raises": sorted(raises), "by_type": by_type, "translator": tr}
+    return _PROGRAMS
+
+
+STRATEGY_SKELETON = [
+    "settings = self.settings", "clone = entity.__class__()", "doc = entity.doc", "clone.doc = doc",
+    "clone.dxf = entity.dxf.copy(clone)", "if settings.reset_handles:\n    clone.dxf.reset_handles()",
+    "if settings.copy_extension_dict:\n    xdict = entity.extension_dict\n    if xdict is not None and doc is not None and xdict.is_alive:\n        clone.extension_dict = xdict.copy(self)",
+    "if settings.copy_reactors and entity.reactors is not None:\n    clone.reactors = entity.reactors.copy()",
+    "if settings.copy_proxy_graphic:\n    clone.proxy_graphic = entity.proxy_graphic",
+    "if settings.copy_appdata:\n    clone.appdata = deepcopy(entity.appdata)",
+    "if settings.copy_xdata:\n    clone.xdata = deepcopy(entity.xdata)",
+    "if settings.set_source_of_copy:\n    clone.set_source_of_copy(entity)",
+    "entity.copy_data(clone, copy_strategy=self)", "return clone",
+]
+NAMESPACE_SKELETON = {
+    "copy": ["namespace = self.__class__()", "for k, v in self.__dict__.items():\n    namespace.__dict__[k] = v", "namespace.rewire(entity)", "return namespace"],
+    "__deepcopy__": ["return self.copy(self._entity)"],
+    "__getstate__": ["return self.__dict__"],
+    "__setstate__": ["if not isinstance(state, dict):\n    raise TypeError(f'invalid state: {type(state).__name__}')", "object.__setattr__(self, '__dict__', state)"],
+}
+CAST_SKELETON = ["entity = cls()", "entity.doc = other.doc", "entity.dxf = other.dxf", "entity.extension_dict = other.extension_dict",
+                 "entity.reactors = other.reactors", "entity.appdata = other.appdata", "entity.xdata = other.xdata",
+                 "entity.proxy_graphic = other.proxy_graphic", "entity.dxf.rewire(entity)", "return entity"]
+
+
+# ---- rendering for Lean (Gen table) and for the driver (X2 requests)
+def const_value(what):
+    """the Python value of a `const` policy (a new object on every call)"""
+    if what[0] == "none":
+        return None
+    if what[0] == "value":
+        return what[1]
+    if what[0] == "initof":
+        return vars(what[1]()).get(what[2]) if hasattr(what[1](), "__dict__") else getattr(what[1](), what[2], None)
+    if what[0] == "fresh":
+        import sys
+        for k in what[2].__mro__:
+            K = getattr(sys.modules.get(k.__module__), what[1], None)
+            if isinstance(K, type):
+                return K()
+    raise ValueError(what)
+
+
+def lean_shape(o, depth=0):
+    """value tree without atoms and addresses, for the `const` policies of the generated table"""
+    if is_atom(o) or depth > 6:
+        return ".leaf 0"
+    kind, ch = children(o)
+    k = {KIND_IMM: ".imm", KIND_CELL: ".cell", KIND_CONT: ".cont"}[kind]
+    kids = [lean_shape(c, depth + 1) for label, c in ch if not ((label in NAV_ATTRS and _is_entity(o)) or tname(c) in NAV_TARGET_TYPES)]
+    return f".node 0 {k} [{', '.join(kids)}]"
+
+
+def lean_pol(p):
+    if p[0] in ("deep", "alias", "ents"):
+        return "." + p[0]
+    if p[0] == "const":
+        return f".const ({lean_shape(const_value(p[1]))})"
+    if p[0] == "gen":
+        return f".gen {p[1]}"
+    if p[0] == "each":
+        return f".each ({lean_pol(p[1])})"
+    if p[0] == "fields":
+        return ".fields [" + ", ".join(lean_pol(q) for _, q in p[1]) + "]"
+    raise ValueError(p)
+
+
+def lean_test(t):
+    return ".notNone" if t[0] == "notNone" else f".nonEmpty [{', '.join(map(str, t[1]))}]"
+
+
+def lean_ppol(pp):
+    if pp[0] == "one":
+        return f".one ({lean_pol(pp[1])})"
+    return f".cond ({lean_test(pp[1])}) ({lean_pol(pp[2])}) ({lean_pol(pp[3])})"
+
+
+def lean_ty(t):
+    if t[0] in ("any", "ok"):
+        return "." + t[0]
+    if t[0] == "coll":
+        return f".coll ({lean_ty(t[1])})"
+    return ".obj [" + ", ".join(lean_ty(x) for x in t[1]) + "]"
+
+
+def shape_holds(t, v, owner, via) -> bool:
+    """Python mirror of `shape` (Model/HeapRecipe.lean) on a real value: does `v` have type `t`"""
+    if t[0] == "any" or is_atom(v):
+        return True
+    if t[0] == "ok":
+        return _deep_imm(v) or _frozen_by_rule(v, owner, via)
+    if is_dxf_entity(v):
+        return False
+    kind, ch = children(v)
+    if t[0] == "coll":
+        return all(shape_holds(t[1], c, owner, via + "[]") for label, c in ch if not (isinstance(v, dict) and label.startswith("key")))
+    if len(ch) > len(t[1]):
+        return False
+    return all(shape_holds(f, c, tname(v), label) for f, (label, c) in zip(t[1], ch))
+
+
+_GLOBAL_IDS = None
+
+
+def global_object_ids():
+    """id -> name of the module / class level root for every mutable object below a module level root (instances and
+    loggers excluded): what no document or entity may hold by identity"""
+    global _GLOBAL_IDS
+    if _GLOBAL_IDS is None:
+        out = {}
+        for name, kind, obj in global_roots():
+            gg = Graph()
+            try:
+                gg.add(obj, stop=lambda o: _global_stop(o) is not None, limit=200000)
+            except RuntimeError:
+                continue
+            for n in gg.nodes:
+                if n["kind"] != KIND_IMM and not n.get("stopped"):
+                    out.setdefault(id(n["obj"]), name)
+        _GLOBAL_IDS = out
+    return _GLOBAL_IDS
+
+
+def handed_out_global(e):
+    """name of a module level root one of whose mutable objects the entity `e` holds by identity (None if there is none)"""
+    ids = global_object_ids()
+    try:
+        g = Graph()
+        g.add(e)
+    except Exception:
+        return None
+    for n in g.nodes:
+        if n["kind"] != KIND_IMM and id(n["obj"]) in ids:
+            return f"{ids[id(n['obj'])]} via {n['path']}"
+    return None
+
+
+def typing_violation(e):
+    """first payload part of entity `e` (or of an entity below it) whose value does not have the inferred type of its
+    class: the hypothesis `wt` of all_recipes_separate on the real object; None if all parts are well typed"""
+    try:
+        P = programs()
+        g = Graph()
+        r = g.add(e)
+    except Exception:
+        return None
+    for i in sorted(g.reach(r)):
+        o = g.nodes[i]["obj"]
+        if not is_dxf_entity(o):
+            continue
+        try:
+            key, row = program_row(o)
+        except Opaque:
+            continue
+        for a in row["names"]:
+            t = P["types"][key][a]
+            if t != ("any",) and a in vars(o) and not shape_holds(t, vars(o)[a], tname(o), a):
+                return f"{type(o).__name__}.{a}"
+    return None
+
+
+def program_row(e):
+    """(class key, row) of the recipe of entity `e` (the variant is chosen by the DXF attributes the copy_data tests)"""
+    P = programs()
+    cls = type(e)
+    for k in cls.__mro__:
+        for key, row in P["rows"].items():
+            if row["cls"] is k and all(bool(e.dxf.get(a)) == bool(v) for a, v in row["assume"].items()):
+                return key, row
+    raise Opaque(f"{cls.__name__}: no recipe (copy not supported or untranslated)")
+
+
+def nsdrop_for(e):
+    """names of DXF attributes that the copy of `e` does not take over (evaluated on the source of a copy)"""
+    src = e.source_of_copy if getattr(e, "source_of_copy", None) is not None else e
+    try:
+        _, row = program_row(src)
+    except Opaque:
+        return []
+    out = []
+    for name, test, which in row["nsdrop"]:
+        if test is None or bool(eval(compile(ast.Expression(test), "<nsdrop>", "eval"), {}, {"self": src})) == which:
+            out.append(name)
+    return out
+
+
+def ty_text(t):
+    if t[0] == "any":
+        return "*"
+    if t[0] == "ok":
+        return "o"
+    if t[0] == "coll":
+        return "L( " + ty_text(t[1]) + " )"
+    return "O( " + " ".join(ty_text(x) for x in t[1]) + " )"
+
+
+def row_ppols(row):
+    """PPol per part of a default instance, in slot order (parts that copy_data does not assign keep what __init__ stored)"""
+    return [row["parts"].get(a, ("one", ("const", ("initof", row["cls"], a)))) for a in row["names"]]
+
+
+def programs_to_lean():
+    P = programs()
+    keys = sorted(P["rows"])
+    text = "/-- class ids of the recipe / type tables (class name, `?attr=0|1` for the variants of a class whose copy_data branches on a DXF attribute) -/\n"
+    text += f"def classNames : List (Nat × String) := {lean_list((f'({i}, {lean_str(k)})' for i, k in enumerate(keys)), 4)}\n\n"
+    text += "/-- T-ast: the copy_data recipes as programs, payload parts in slot order of a default instance -/\n"
+    text += "def recipesP : List (Nat × List PPol) := " + lean_list((f"({i}, [{', '.join(lean_ppol(pp) for pp in row_ppols(P['rows'][k]))}])" for i, k in enumerate(keys)), 1) + "\n\n"
+    text += "/-- T-heap: types of the payload parts inferred from the populated instances, same order -/\n"
+    text += "def partTypes : List (Nat × List Ty) := " + lean_list((f"({i}, [{', '.join(lean_ty(P['types'][k][a]) for a in P['rows'][k]['names'])}])" for i, k in enumerate(keys)), 1) + "\n\n"
+    text += "/-- every copy method found by the scanner (COPY_NAMES under src/ezdxf/entities, copy protocol methods in the whole package) and how it is accounted for -/\n"
+    text += f"def copyMethods : List (String × String) := {lean_list((lean_rule(m) for m in P['methods']), 2)}\n\n"
+    text += "/-- methods with a construct outside the translated subset (must be empty: `recipes_complete`) -/\n"
+    text += f"def untranslated : List (String × String) := {lean_list((lean_rule((a, b.replace(chr(10), ' ')[:90])) for a, b in P['untranslated']), 1)}\n\n"
+    text += "/-- every position that some policy passes by reference: (class that owns the attribute, attribute) -/\n"
+    text += f"def okParts : List (String × String) := {lean_list((lean_rule(r) for r in P['ok_parts']), 3)}\n\n"
+    text += "/-- parts whose value comes from a generator of the entity: (class, part, call) -/\n"
+    text += f"def generators : List (String × String × String) := {lean_list((lean_rule(r) for r in P['generators']), 1)}\n\n"
+    return text
+
+
+# ----------------------------------------------------------------------------- module level mutable state (session 3, T-heap)
+def global_roots():
+    """every module level / class level mutable object of the loaded ezdxf modules (add-ons excluded), mutable default
+    arguments of functions and methods, lru caches: [(qualified name, kind, object)], one entry per object identity"""
+    import functools
+    import sys
+    seen, out = set(), []
+
+    def add(name, kind, obj):
+        if is_atom(obj) or id(obj) in seen:
+            return
+        seen.add(id(obj))
+        out.append((name, kind, obj))
+
+    def fn_defaults(name, f):
+        if isinstance(f, functools._lru_cache_wrapper):
+            add(name, "lru-cache", f)
+            f = f.__wrapped__
+        if isinstance(f, types.FunctionType):
+            for i, d in enumerate((f.__defaults__ or ()) + tuple((f.__kwdefaults__ or {}).values())):
+                add(f"{name}(default {i})", "default-arg", d)
+
+    for mname, mod in sorted(sys.modules.items()):
+        if not (mname == "ezdxf" or mname.startswith("ezdxf.")) or mod is None or ".addons" in mname:
+            continue
+        for name, v in sorted(vars(mod).items()):
+            if name.startswith("__"):
+                continue
+            if isinstance(v, type):
+                if v.__module__ != mname:
+                    continue
+                for an, av in sorted(vars(v).items()):
+                    if an.startswith("__") and an != "__init__":
+                        continue
+                    f = av.__func__ if isinstance(av, (staticmethod, classmethod)) else av
+                    if isinstance(f, (types.FunctionType, functools._lru_cache_wrapper)):
+                        fn_defaults(f"{mname}.{name}.{an}", f)
+                    elif isinstance(av, property):
+                        continue
+                    else:
+                        add(f"{mname}.{name}.{an}", "class-attr", av)
+            elif isinstance(v, (types.FunctionType, functools._lru_cache_wrapper)):
+                if getattr(v, "__module__", None) == mname:
+                    fn_defaults(f"{mname}.{name}", v)
+            elif not isinstance(v, types.ModuleType):
+                add(f"{mname}.{name}", "module-var", v)
+    return out
+
+
+def _global_stop(o):
+    t = tname(o)
+    if t == "Drawing" or (_is_entity(o) and hasattr(o, "dxf")):
+        return ("instance", t)
+    if t in ("Logger", "RootLogger", "Manager", "PlaceHolder"):
+        return ("logging", t)
+    return None
+
+
+def scan_globals(battery, warm=False):
+    """obligation table for module level state: (name, kind, status)
+      status  'stable'      content unchanged by the battery of document operations (run after a warm-up run of the same
+                            battery) and no mutable object of it is stored in a document / entity instance
+              'handed-out'  a mutable object below it is held (by identity) by a document or entity instance: a write through
+                            the instance would reach every other document
+              'changed'     the battery changed it (write-barrier probe by content)"""
+    if not warm:
+        battery()  # warm-up: lazily filled caches and registries (regenerate has run the same scenarios in extract())
+    roots = global_roots()
+    fp0 = {}
+    for name, kind, obj in roots:
+        try:
+            fp0[name] = fingerprint(obj, stop_at=_global_stop)
+        except Exception:
+            fp0[name] = None
+    held = battery()
+    g = Graph()
+    for r in held:
+        g.add(r)
+    inst_ids = {id(n["obj"]) for n in g.nodes if n["kind"] != KIND_IMM}
+    table = []
+    for name, kind, obj in roots:
+        try:
+            changed = fingerprint(obj, stop_at=_global_stop) != fp0[name]
+        except Exception:
+            changed = False
+        gg = Graph()
+        try:
+            gg.add(obj, stop=lambda o: _global_stop(o) is not None, limit=200000)
+        except RuntimeError:
+            pass
+        handed = any(n["kind"] != KIND_IMM and id(n["obj"]) in inst_ids and not n.get("stopped") for n in gg.nodes)
+        if kind == "lru-cache" and not _lru_returns_value(obj):
+            changed = True  # a cache that hands the same mutable object to every caller
+        table.append((name, kind, "changed" if changed else ("handed-out" if handed else "stable")))
+    new_roots = [r for r in global_roots() if r[0] not in fp0]
+    for name, kind, obj in new_roots:  # appeared during the second run: state created by document operations
+        table.append((name, kind, "changed"))
+    return sorted(table)
+
+
+def _lru_returns_value(f) -> bool:
+    """does the lru cached function return immutable values (so that sharing the cached object between callers and documents
+    is harmless): by return annotation, else by a probe call of the undecorated function with small integers"""
+    import inspect
+    w = f.__wrapped__
+    ann = getattr(w, "__annotations__", {}).get("return")
+    names = {"int", "float", "str", "bool", "bytes", "Vec2", "Vec3", "tuple", "frozenset", "complex"}
+    if ann is not None:
+        a = ann if isinstance(ann, str) else getattr(ann, "__name__", str(ann))
+        if a.split("[")[0].replace("Optional", "").strip("[] ") in names or a in names:
+            return True
+    try:
+        n = len([p for p in inspect.signature(w).parameters.values() if p.default is p.empty and p.kind in (p.POSITIONAL_ONLY, p.POSITIONAL_OR_KEYWORD)])
+        if n <= 3:
+            return _deep_imm(w(*([3] * n)))
+    except Exception:
+        pass
+    return False
+
+
+def globals_battery():
+    """documents and entities made by the operations of the scenarios: copies by all routes, virtual entities, documents
+    created / loaded / recovered, saved"""
+    held = []
+    doc = new_doc()
+    b = B(doc)
+    for name, f in b.items():
+        e = f()
+        decorate(e, doc)
+        held.append(e)
+        for kname, kf in copy_kinds(e, doc).items():
+            try:
+                held.append(kf(e))
+            except ezdxf.DXFError:
+                pass
+    import random
+    for name, f in b.items():
+        probe = f()
+        for mname, fn in specific_mutators(probe, random.Random(0)):
+            if any(w in mname for w in ("clear", "pop", "delete", "discard", "remove")):
+                continue
+            e = f()
+            if run_mut(fn, e) == "ok":
+                held.append(e)
+    doc2 = new_doc()
+    for name, roots, produce in virtual_scenarios(doc2, B(doc2)):
+        try:
+            held += list(produce())
+        except Exception:
+            pass
+    held += [doc, doc2]
+    for name, d1, d2 in document_pairs():
+        held += [d1, d2]
+    return held
